@@ -219,3 +219,72 @@ func H_C14_page_range_filter() {
 	vAssert("nothing-else", k == len(got.Chunks))
 	vReach("end")
 }
+
+// H_C14_csv_metadata_cells: every metadata column of a CSV/TSV export holds, in each row, the value of that chunk's
+// metadata field - the header is not enough, the cells must parse back too.
+//
+//symgo:harness prop=C14 kernel=K1-csv-metadata-cells
+//symgo:desc 1..2 chunks carrying TotalChunks, EstimatedTokens, ElementTypes, ParentID, WordCount, CharCount and HeadingLevel (the second chunk with different values; which of ParentID / ElementTypes the first chunk has is enumerated); CSV or TSV with header and metadata, read back by the interpreted encoding/csv.Reader: for every column meta_<key> of the header the row's cell equals the chunk's value for that key (numbers in decimal; the element-type list names every type) and is empty only if the chunk lacks the field
+func H_C14_csv_metadata_cells() {
+	n := vAnyIntIn(1, 2)
+	cfg := CSVExportConfig()
+	delim := ','
+	if vAnyIntIn(0, 1) == 1 {
+		cfg = TSVExportConfig()
+		delim = '\t'
+	}
+	cfg.IncludeHeader = true
+	cfg.IncludeMetadata = true
+	withParent, withTypes := vAnyIntIn(0, 1) == 1, vAnyIntIn(0, 1) == 1
+	chunks := make([]*Chunk, n)
+	want := make([]map[string]string, n)
+	for i := range chunks {
+		md := ChunkMetadata{ChunkIndex: 3 + i, TotalChunks: 7 + i, EstimatedTokens: 9 + i, WordCount: 3 + i, CharCount: 11 + i, HeadingLevel: 2}
+		w := map[string]string{"meta_total_chunks": strconv.Itoa(7 + i), "meta_estimated_tokens": strconv.Itoa(9 + i), "meta_word_count": strconv.Itoa(3 + i),
+			"meta_char_count": strconv.Itoa(11 + i), "meta_heading_level": "2"}
+		if i > 0 || withParent {
+			md.ParentID = "par" + string(rune('0'+i))
+			w["meta_parent_id"] = md.ParentID
+		}
+		if i > 0 || withTypes {
+			md.ElementTypes = []string{"paragraph", "table"}
+			w["meta_element_types"] = "*types*"
+		}
+		chunks[i] = &Chunk{ID: "id" + string(rune('0'+i)), Text: "text " + string(rune('0'+i)), Metadata: md}
+		want[i] = w
+	}
+	out, err := NewExporterWithConfig(cfg).ExportToString(chunks)
+	vAssert("export-no-error", err == nil)
+	rd := csv.NewReader(strings.NewReader(out))
+	rd.Comma = delim
+	rd.FieldsPerRecord = -1
+	recs, rerr := rd.ReadAll()
+	vAssert("well-formed", rerr == nil && len(recs) == n+1)
+	header := recs[0]
+	seen := map[string]bool{}
+	for c, col := range header {
+		seen[col] = true
+		for i := 0; i < n; i++ {
+			vAssert("row-as-wide-as-header", c < len(recs[i+1]))
+			cell := recs[i+1][c]
+			exp, has := want[i][col]
+			switch {
+			case !has:
+				// a column this harness does not set expectations for, or a field this chunk lacks
+				if col == "meta_parent_id" || col == "meta_element_types" {
+					vAssert("cell-empty-when-chunk-lacks-the-field", cell == "")
+				}
+			case exp == "*types*":
+				vAssert("element-types-cell-names-every-type", strings.Contains(cell, "paragraph") && strings.Contains(cell, "table"))
+			default:
+				vAssert("metadata-cell-is-the-chunks-value", cell == exp)
+			}
+		}
+	}
+	for i := 0; i < n; i++ {
+		for col := range want[i] {
+			vAssert("header-has-a-column-for-every-field", seen[col])
+		}
+	}
+	vReach("end")
+}
